@@ -185,6 +185,21 @@ Lemma stacks_agree c auto r :
   respond H2 c auto false r = respond H3 c auto false r.
 Proof. intros H. rewrite !respond_spec by exact H. split; reflexivity. Qed.
 
+Lemma sent_accept_encoding_spec st c :
+  sent_accept_encoding st c = if transport_asked c then bs "gzip" else q_ae c.
+Proof. unfold sent_accept_encoding. now rewrite asked_gzip_spec. Qed.
+
+Lemma bodiless_untouched c auto ended r :
+  (q_head c = true \/ r_cl r = 0%Z -> respond H1 c auto ended r = r) /\
+  (q_head c = true \/ ended = true -> respond H2 c auto ended r = r).
+Proof. split; [apply respond_bodiless_h1 | apply respond_bodiless_h2]. Qed.
+
+(* the hypothesis of the codec theorems is satisfiable (identity coding) *)
+Lemma roundtrip_satisfiable :
+  exists (compress : enc -> bytes -> bytes) (dec : codec),
+    forall e p, dec e (compress e p) = {| s_data := p; s_end := EOF |}.
+Proof. exists (fun _ p => p), (fun _ w => {| s_data := w; s_end := EOF |}). reflexivity. Qed.
+
 (* ---------- several Content-Encoding lines are one list ---------- *)
 
 Lemma content_encoding_single v : content_encoding [v] = v.
